@@ -42,6 +42,26 @@ HANDLERS = {'h0': None, 'h1': h1}
 
 class ClsCamel(pane.PaneBase, rename='camel'):
     ab_cd: int
+
+
+# one handler function in two roles: h1 is a call-level handler (custom=h1) in some lookups and the class-level
+# handler of an enclosing dataclass in others; the nested class has its own handler g, which the first overrides
+# and the second does not
+_FLOAT_CONV = make_converter(float)
+
+
+def g2(ty, args, *, handlers):
+    if ty is MyInt:
+        return _FLOAT_CONV
+    return NotImplemented
+
+
+class InnerG(pane.PaneBase, custom=g2):
+    x: MyInt
+
+
+class OuterH1(pane.PaneBase, custom=h1):
+    inner: InnerG
 T_STR, T_INT, T_FLOAT = {'k': 'str'}, {'k': 'int'}, {'k': 'float'}
 T_MY = {'k': 'sub', 'name': 'MyInt', 'base': T_INT}
 
@@ -62,6 +82,10 @@ def fresh_type(desc: str):
         return {'a': int}
     if desc == 'ClsCamel':
         return ClsCamel
+    if desc == 'InnerG':
+        return InnerG
+    if desc == 'OuterH1':
+        return OuterH1
     if desc == 'ListUIF':
         return list[t.Union[int, float]]
     if desc == 'ListUFI':
@@ -88,6 +112,13 @@ def abstract_type(desc: str, h: str) -> dict:
         return {'k': 'cls', 'name': 'ClsCamel', 'fs': [{'n': 's_ab_cd', 't': T_INT, 'd': {'k': 'nodef', 'v': {'k': 'none'}}, 'kw': 'F',
                                                          'ins': ['s_abCd'], 'out': 's_abCd', 'ex': 'F', 'init': 'T'}],
                 'inf': ['struct'], 'outf': 'struct', 'extra': 'F', 'hook': {'k': 'nohook'}}
+    if desc in ('InnerG', 'OuterH1'):
+        def cls(name, fname, ft):
+            return {'k': 'cls', 'name': name, 'fs': [{'n': fname, 't': ft, 'd': {'k': 'nodef', 'v': {'k': 'none'}}, 'kw': 'F',
+                                                      'ins': [fname], 'out': fname, 'ex': 'F', 'init': 'T'}],
+                    'inf': ['struct'], 'outf': 'struct', 'extra': 'F', 'hook': {'k': 'nohook'}}
+        inner = cls('InnerG', 's_x', T_STR if h == 'h1' else T_FLOAT)     # call-level h1 goes before the class' own g2
+        return inner if desc == 'InnerG' else cls('OuterH1', 's_inner', inner)
     if desc == 'ListUIF':
         return {'k': 'list', 'e': {'k': 'union', 'alts': [T_INT, T_FLOAT]}}
     if desc == 'ListUFI':
@@ -97,7 +128,8 @@ def abstract_type(desc: str, h: str) -> dict:
     raise KeyError(desc)
 
 
-PROBES = [['a', 'b'], {'abCd': 1}, [3], [1, 2], {'a': 1.5}, [3, 'x'], {'a': 1}, [1.5], [1], 'zz', []]
+PROBES = [['a', 'b'], {'abCd': 1}, [3], [1, 2], {'a': 1.5}, [3, 'x'], {'a': 1}, [1.5], [1], 'zz', [],
+          {'x': 1.5}, {'x': 'zz'}, {'inner': {'x': 1.5}}, {'inner': {'x': 'zz'}}]
 
 
 # ---------------------------------------------------------------------------------------
@@ -286,7 +318,7 @@ def sequential_histories(seed: int, n: int, length: int) -> tuple:
     short-lived type objects, through the public from_data."""
     import random
     rnd = random.Random(seed)
-    descs = ['ListStr', 'DictStrFloat', 'TupIntStr', 'ListMy', 'SetInt', 'StructAInt', 'ListUIF', 'ListUFI', 'ListLitFloat', 'ClsCamel']
+    descs = ['ListStr', 'DictStrFloat', 'TupIntStr', 'ListMy', 'SetInt', 'StructAInt', 'ListUIF', 'ListUFI', 'ListLitFloat', 'ClsCamel', 'InnerG', 'OuterH1']
     events, desc = [], {}
     ident = 10 ** 6
     stats = {'steps': 0, 'id_reused_for_other_type': 0}
